@@ -214,6 +214,31 @@ def run(ctx):
     run_traces(ctx, "tr_iohold", [[ctx.seed * 10 + i, 150 if ctx.thorough else 30] for i in range(4 if ctx.thorough else 2)], "iohold",
                r"explained-by-IoHold.astep (\d+)", "L-trace io cleanup", "iohold", timeout=300)
 
+    # thorough: the stream / hold / close-stop workloads once more under AddressSanitizer (F37 and F38 were uses of freed memory)
+    if ctx.thorough:
+        n = 0
+        for name, args in (("c14_conv0", [ctx.seed * 10 + 9, 1500]), ("c14_stopclose", [ctx.seed * 10 + 9, 60]), ("c14_ebadf", [ctx.seed * 10 + 9, 8]),
+                           ("c14_rearm", [ctx.seed * 10 + 9, 1500]), ("tr_iohold", [ctx.seed * 10 + 9, 60]), ("c16_hangup", [ctx.seed * 10 + 9, 300])):
+            try:
+                ha = ctx.harness(name, variant="asan", extra=["-ldl"])
+            except Exception as e:
+                ctx.cov["layers"].setdefault("asan", {})[name] = "skipped: " + str(e)[:160]; continue
+            cmd = [ha] + [str(a) for a in args]
+            try:
+                p = subprocess.run(cmd, stdout=subprocess.PIPE, stderr=subprocess.PIPE, text=True, errors="replace", timeout=900,
+                                   env={"ASAN_OPTIONS": "detect_leaks=0:exitcode=99", "PATH": "/usr/bin:/bin", "MALLOC_PERTURB_": "165"})
+                head = ([l for l in p.stdout.splitlines() if l.startswith("ORACLE")] or [""])[0]
+                rc, err = p.returncode, p.stderr
+            except subprocess.TimeoutExpired:
+                head, rc, err = "ORACLE VIOL the workload hung under AddressSanitizer", 1, ""
+            n += 1
+            if rc != 0 or "VIOL" in head:
+                what = (head if "VIOL" in head else "") or ([l for l in err.splitlines() if "ERROR" in l][:1] or ["exit %d" % rc])[0]
+                ctx.violation("dispatch I/O under AddressSanitizer (%s): %s" % (name, what[:300]), {"cmd": cmd, "stderr": err[-2500:]}, signature="io:asan:" + name + ":" + what[:40])
+            else:
+                ctx.cov["layers"].setdefault("asan", {})[name] = head[:160]
+        ctx.count("oracle io asan", n, n, samples=[{"cmd": "c14_conv0(asan) %d 1500" % (ctx.seed * 10 + 9)}])
+
 
 def replay(ctx, obj):
     r = obj["replay"]
